@@ -580,7 +580,7 @@ def gen_root(rng, named, n_rules=None, hook_p=0.5, ignore=None, features=None, c
 
 
 def gen_child(rng, parent_gen, hook_p=0.4, ignore=None, allow_super=True, force=(), override_ignore_p=0.0,
-              respell_start_p=0.0):
+              respell_start_p=0.0, force_body=None):
     """A module spec extending the module described by parent_gen.table.
     Returns (spec, gen) where gen.table is the effective table of the child."""
     g = Gen(rng, parent_gen.features)
@@ -635,7 +635,9 @@ def gen_child(rng, parent_gen, hook_p=0.4, ignore=None, allow_super=True, force=
         # super.<name> only for names the parent chain defines (not for rules new at this level)
         supers = tuple(sorted(n for n, i in parent_gen.table.items() if i['kind'] in ('rule', 'class'))) if allow_super else ()
         # bias: an override that mentions super.<itself>
-        if allow_super and nm in parent_gen.table and rng.random() < 0.5:
+        if force_body and nm in force_body:
+            body = force_body[nm]
+        elif allow_super and nm in parent_gen.table and rng.random() < 0.5:
             alt = g.expr(info['rank'], True, consume, 1, supers)
             body = ['alt', alt, ['super', nm]] if rng.random() < 0.7 else ['alt', ['super', nm], alt]
         else:
@@ -696,41 +698,81 @@ def gen_child(rng, parent_gen, hook_p=0.4, ignore=None, allow_super=True, force=
     return spec, g
 
 
-def kind_matrix_root(rng, ignore=None):
+NULLABLE_X_BASES = [['star', ['lit', 'x']], ['opt', ['lit', 'x']], ['sep', ['lit', 'x'], ['lit', ',']], ['re', 'x*'],
+                    ['skip', ['lit', 'x']], ['rep', ['lit', 'x'], 0, 2]]
+FAILING_X_OVERRIDES = [['lit', 'x'], ['plus', ['lit', 'x']], ['where', ['super', 'X'], 'lambda v: bool(v)'],
+                       ['seq', ['lit', 'x'], ['opt', ['lit', 'x']]], ['right', ['expect', ['lit', 'x']], ['super', 'X']]]
+
+
+def kind_matrix_root(rng, ignore=None, nullable_x=False):
     """A root grammar in which ONE rule X is referred to from every kind of expression, each
     reachable through its own tag: `start = List(("1" >> K1) | ("2" >> K2) | ...)`.  A derived
     grammar that overrides X must see its definition in every one of these contexts (C13: late
-    binding must not depend on the kind of the referring expression)."""
+    binding must not depend on the kind of the referring expression).
+
+    nullable_x: the base definition of X CANNOT FAIL (`"x"*`, `Opt("x")`, ...) and the derived grammars
+    override it with definitions that can: whatever the generator concludes statically about the base
+    definition (cannot fail, cannot consume partially) must not be baked into the inherited rules that
+    refer to it.  (No context repeats X in this variant: repeating something that may be empty is not
+    a well-formed PEG.)"""
     X = ['ref', 'X']
-    ctxs = [
-        X,
-        ['seq', X, ['lit', '!']],
-        ['alt', ['lit', '?'], X],
-        ['opt', X],
-        ['star', X],
-        ['plus', X],
-        ['rep', X, 1, 2],
-        ['sep', X, ['lit', ',']],
-        ['sept', X, ['lit', ',']],
-        ['seq', ['lit', 'i'], ['star', ['seq', X, ['lit', 'i']]]],
-        ['right', ['lit', '<'], X],
-        ['left', X, ['lit', '>']],
-        ['seq', ['expect', X], X],
-        ['seq', ['expectnot', X], ['re', '[a-c]']],
-        ['apply', X, 'lambda v: [v]'],
-        ['where', X, 'lambda v: True'],
-        ['longest', X, ['lit', 'n']],
-        ['longest', ['lit', 'n'], ['seq', X, ['lit', '!']]],
-        ['right', ['skip', X], ['lit', 'e']],
-        ['let', 'v', X, ['seq', ['py', 'v'], X]],
-        ['call', 'Tw', X],
-        ['call', 'Pt', X],
-        ['optable', X, [['left', [['lit', '+']]], ['prefix', [['lit', '!']]]]],
-        ['optable', ['ref', 'O'], [['left', [X]]]],
-        ['optable', ['ref', 'O'], [['mixfix', [['left', ['right', ['lit', '('], X], ['lit', ')']]]], ['left', [['lit', '+']]]]],
-        ['sep', ['ref', 'O'], X],
-        ['seq', ['opt', ['lit', 'q']], ['alt', ['seq', X, ['lit', '!']], ['seq', X, ['lit', '?']], X]],
-    ]
+    if nullable_x:
+        ctxs = [
+            X,
+            ['seq', X, ['lit', '!']],
+            ['alt', ['lit', '?'], X],
+            ['alt', X, ['lit', '?']],
+            ['alt', ['seq', X, ['lit', '!']], ['lit', '?'], ['seq', X, ['lit', ',']]],
+            ['opt', X],
+            ['right', ['lit', '<'], X],
+            ['left', X, ['lit', '>']],
+            ['right', X, ['lit', 'e']],
+            ['seq', ['expect', X], X, ['lit', '!']],
+            ['seq', ['expectnot', X], ['re', '[a-c]']],
+            ['apply', X, 'lambda v: [v]'],
+            ['where', X, 'lambda v: True'],
+            ['longest', X, ['lit', 'n']],
+            ['longest', ['lit', 'n'], ['seq', X, ['lit', '!']]],
+            ['let', 'v', X, ['seq', ['py', 'v'], X, ['lit', '!']]],
+            ['call', 'Tw', X],
+            ['call', 'Pt', X],
+            ['seq', X, X, ['lit', '!']],
+            ['seq', ['opt', ['lit', 'q']], ['alt', ['seq', X, ['lit', '!']], ['seq', X, ['lit', '?']], X]],
+            ['seq', ['star', ['lit', 'i']], X, ['lit', 'i']],
+            ['sep', ['seq', ['lit', 'o'], X], ['lit', ',']],
+            ['optable', ['seq', ['lit', 'o'], X], [['left', [['lit', '+']]], ['postfix', [['lit', '!']]]]],
+            ['seq', ['alt', X, ['lit', 'z']], ['lit', '!']],
+        ]
+    else:
+        ctxs = [
+            X,
+            ['seq', X, ['lit', '!']],
+            ['alt', ['lit', '?'], X],
+            ['opt', X],
+            ['star', X],
+            ['plus', X],
+            ['rep', X, 1, 2],
+            ['sep', X, ['lit', ',']],
+            ['sept', X, ['lit', ',']],
+            ['seq', ['lit', 'i'], ['star', ['seq', X, ['lit', 'i']]]],
+            ['right', ['lit', '<'], X],
+            ['left', X, ['lit', '>']],
+            ['seq', ['expect', X], X],
+            ['seq', ['expectnot', X], ['re', '[a-c]']],
+            ['apply', X, 'lambda v: [v]'],
+            ['where', X, 'lambda v: True'],
+            ['longest', X, ['lit', 'n']],
+            ['longest', ['lit', 'n'], ['seq', X, ['lit', '!']]],
+            ['right', ['skip', X], ['lit', 'e']],
+            ['let', 'v', X, ['seq', ['py', 'v'], X]],
+            ['call', 'Tw', X],
+            ['call', 'Pt', X],
+            ['optable', X, [['left', [['lit', '+']]], ['prefix', [['lit', '!']]]]],
+            ['optable', ['ref', 'O'], [['left', [X]]]],
+            ['optable', ['ref', 'O'], [['mixfix', [['left', ['right', ['lit', '('], X], ['lit', ')']]]], ['left', [['lit', '+']]]]],
+            ['sep', ['ref', 'O'], X],
+            ['seq', ['opt', ['lit', 'q']], ['alt', ['seq', X, ['lit', '!']], ['seq', X, ['lit', '?']], X]],
+        ]
     g = Gen(rng, features=['classes', 'sep', 'lookahead', 'apply', 'where', 'longest', 'template', 'optable', 'let', 'skip', 'rep'])
     g.max_rep_lo = 1
     g.lits = ['a', 'b', 'c', '!', '?', ',']
@@ -742,7 +784,7 @@ def kind_matrix_root(rng, ignore=None):
     g.table['Pt'] = {'rank': -1.0, 'nullable': True, 'kind': 'template', 'arg_leftmost': True}
     alts = []
     n = len(ctxs)
-    g.table['X'] = {'rank': float(n + 5), 'nullable': False, 'kind': 'rule'}
+    g.table['X'] = {'rank': float(n + 5), 'nullable': bool(nullable_x), 'kind': 'rule'}
     g.table['O'] = {'rank': float(n + 4), 'nullable': False, 'kind': 'rule'}
     rules = []
     for i, c in enumerate(ctxs):
@@ -759,11 +801,13 @@ def kind_matrix_root(rng, ignore=None):
     items += rules
     # (an operator table over a bare literal operand keeps a dangling operator: C02's business)
     items.append({'k': 'rule', 'name': 'O', 'expr': ['lit', 'o']})
+    xbody = rng.choice(NULLABLE_X_BASES) if nullable_x else ['lit', 'x']
     if rng.random() < 0.5:
-        items.append({'k': 'class', 'name': 'X', 'fields': [{'name': 'v', 'expr': ['lit', 'x'], 'mod': ''}]})
+        items.append({'k': 'class', 'name': 'X', 'fields': [{'name': 'v', 'expr': xbody, 'mod': ''}]})
         g.table['X']['kind'] = 'class'
     else:
-        items.append({'k': 'rule', 'name': 'X', 'expr': ['lit', 'x']})
+        items.append({'k': 'rule', 'name': 'X', 'expr': xbody})
+    g.nullable_x = bool(nullable_x)
     if ignore is None:
         ignore = rng.choice([None, None, 'anon', 'named'])
     if ignore == 'anon':
